@@ -1075,6 +1075,12 @@ class FuncAnalysis:
             li.carried[cn] = (init, step)
             li.names[cn] = name
             new_env[name] = ('after', li.id, cn, init, step, brk)
+            # a left fold written out:  acc = init; for x in xs: acc = f(acc, x)   is   functools.reduce(f, xs, init)
+            if li.kind == 'for' and not li.has_break and name in pre and step[0] == 'call' and len(step[2]) == 2 and not step[3] \
+                    and step[2][0] in (('phi', li.id, name), ('phi', li.id, cn)) and step[2][1] == mk_elem(li.iter, li.id, ()) \
+                    and len(s.body) == 1 and isinstance(s.body[0], ast.Assign) \
+                    and not any(x[0] in ('phi', 'elem') and len(x) > 1 and x[1] == li.id for x in T.walk(step[1])):
+                new_env[name] = T.call(T.G('functools.reduce'), (step[1], li.iter, init))
             # a plain loop variable after a loop over a literal list is the last element of the list
             # (also through a conditional iterable: [x] if c else xs)
             if li.kind == 'for' and name in li.targets and not li.has_break and name not in _assigned_in(s.body) \
